@@ -519,10 +519,13 @@ start:
 			case *ir.MultiConvert:
 				s.set(v, s.get(v.X))
 			case *ir.Load:
+				// We know nothing about the loaded value. Set both components:
+				// leaving Inner at the lattice's identity would let any other
+				// value's Inner win when control flow merges.
 				if _, ok := v.X.(*ir.Global); ok {
-					s.setOuter(v, MaybeNilGlobal)
+					s.set(v, ValueNilness{Inner: MaybeNil, Outer: MaybeNilGlobal})
 				} else {
-					s.setOuter(v, MaybeNil)
+					s.set(v, ValueNilness{Inner: MaybeNil, Outer: MaybeNil})
 				}
 				s.setOuter(v.X, NeverNil)
 			case *ir.FieldAddr:
